@@ -6,6 +6,7 @@ import OapiVerif.Model.Paths
 import OapiVerif.Model.Names
 import OapiVerif.Model.Responses
 import OapiVerif.Model.Embed
+import OapiVerif.Model.Security
 /-!
 Line-protocol driver: one JSON object per line in, one per line out.
 `{"fn": <name>, ...}` ↦ `{"ok": <result>}` or `{"err": "bad-op"}` (never a default).
@@ -255,8 +256,65 @@ def embedD (j : Json) : Except String Json := do
   pure (Json.mkObj [("b64", hexStr enc), ("chunks", Json.arr ((chunk 80 enc).map fun c => Json.num c.length).toArray),
     ("decoded", match b64decode bs with | some r => Json.str (hexStr r) | none => Json.null)])
 
+open Security in
+def getReqs (j : Json) : Except String (List Req) := do
+  let rs ← j.getArr?
+  rs.toList.mapM fun r => do
+    let es ← r.getArr?
+    es.toList.mapM fun e => do
+      let n ← getCps e "name"
+      let ss ← e.getObjValAs? (Array (Array Nat)) "scopes"
+      pure (n, ss.toList.map (·.toList))
+
+open Security in
+def secDefsD (j : Json) : Except String Json := do
+  let U ← getUni j
+  let g ← getReqs (← j.getObjVal? "global")
+  let opsJ ← (← j.getObjVal? "ops").getArr?
+  let ops ← opsJ.toList.mapM fun o => if o.isNull then pure none else (getReqs o).map some
+  let defs := ops.map (opDefs g)
+  let defJ (d : Def) : Json := Json.mkObj [("p", jcps d.provider), ("scopes", Json.arr (d.scopes.map jcps).toArray),
+    ("ident", jcps (keyIdent U d.provider)), ("key", jcps (keyValue U d.provider))]
+  pure (Json.mkObj [
+    ("defs", Json.arr (defs.map fun ds => Json.arr (ds.map defJ).toArray).toArray),
+    ("ctx", Json.arr (defs.map fun ds =>
+      let ws := publish U ds
+      Json.arr ((ws.map (·.1)).eraseDups.map fun k => Json.mkObj [("key", jcps k),
+        ("scopes", match ctxGet ws k with | some s => Json.arr (s.map jcps).toArray | none => Json.null)]).toArray).toArray),
+    ("constants", Json.arr ((constants U defs).map fun c => Json.mkObj [("ident", jcps c.1), ("key", jcps c.2)]).toArray)])
+
+def getKVs (j : Json) (k : String) : Except String (List (List Nat × List (List Nat))) := do
+  let a ← (← j.getObjVal? k).getArr?
+  a.toList.mapM fun e => do
+    let n ← getHex e "k"
+    let vs ← getHexList e "v"
+    pure (n, vs)
+
+def kvsJson (l : List (List Nat × List (List Nat))) : Json :=
+  Json.arr (l.map fun e => Json.mkObj [("k", hexStr e.1), ("v", jstrs (e.2.map hexStr))]).toArray
+
+open Security in
+def providerD (j : Json) : Except String Json := do
+  let kind ← j.getObjValAs? String "kind"
+  let a ← getHex j "a"
+  let b ← getHex j "b"
+  let rj ← j.getObjVal? "req"
+  let r : Request := { method := ← getHex rj "method", path := ← getHex rj "path", query := ← getKVs rj "query",
+                       headers := ← getKVs rj "headers", body := ← getHex rj "body" }
+  let r' ← match kind with
+    | "basic" => pure (basic a b r)
+    | "bearer" => pure (bearer a r)
+    | "header" => pure (apiKeyHeader a b r)
+    | "query" => pure (apiKeyQuery a b r)
+    | "cookie" => pure (apiKeyCookie a b r)
+    | _ => throw "bad-op"
+  pure (Json.mkObj [("method", hexStr r'.method), ("path", hexStr r'.path), ("query", kvsJson r'.query),
+    ("headers", kvsJson r'.headers), ("body", hexStr r'.body), ("rawQuery", hexStr (encodeQuery r'.query))])
+
 def dispatch (fn : String) (j : Json) : Except String Json :=
   match fn with
+  | "secDefs" => secDefsD j
+  | "provider" => providerD j
   | "prune" => prune j
   | "filter" => filter j
   | "styleParam" => styleParamD j
